@@ -35,6 +35,20 @@ def one_case(rnd):
     if nasty:
         NastyFn.install(dist, rnd, 0.2)
     pristine = copy.deepcopy(dist)       # never evaluated by the optimiser: the reference for what the target's misfit and gradient are
+    cut = None
+    if rnd.random() < 0.12:
+        # Ctrl-C while the target is being evaluated: gradient_descent returns what it has
+        cut = rnd.randint(1, 8)
+        inner_misfit = dist.misfit
+        state = {"k": 0}
+
+        def interrupting_misfit(m_):
+            state["k"] += 1
+            if state["k"] == cut:
+                raise KeyboardInterrupt
+            return inner_misfit(m_)
+
+        dist.misfit = interrupting_misfit
     calls = CallLog()
     calls.wrap(dist, "misfit")
     calls.wrap(dist, "gradient")
@@ -44,10 +58,14 @@ def one_case(rnd):
     strict = rnd.random() < 0.5
     m0 = inside_start(rnd, d, lb, ub) if rnd.random() < 0.9 else None
     stim = {"target": tdesc, "nasty": nasty, "epsilon": eps, "iterations": iters, "regularization": reg, "strictly_monotonic": strict,
-            "initial_model": None if m0 is None else m0.ravel().tolist()}
+            "initial_model": None if m0 is None else m0.ravel().tolist(), "interrupt_at_misfit_call": cut}
     with quiet(), np.errstate(all="ignore"):
+      try:
         m, x, ms, xs = gradient_descent(dist, initial_model=None if m0 is None else m0.copy(), epsilon=eps, iterations=iters,
                                         regularization=reg, strictly_monotonic=strict, disable_progressbar=True)
+      except Exception as e:
+        stim["raised"] = repr(e)
+        m, x, ms, xs = np.zeros((d, 1)), float("nan"), np.zeros((0, d, 1)), np.zeros(0)
     return stim, pristine, calls.calls, (m, x, ms, xs), (np.zeros((d, 1)) if m0 is None else m0), nasty
 
 
@@ -62,8 +80,10 @@ def run(tier, seed):
         stim, dist, calls, ret, m0, nasty = one_case(rnd)
         mt = [(a[0], r) for n, a, r in calls if n == "misfit"]
         gt = [(a[0], r) for n, a, r in calls if n == "gradient"]
+        # an interrupted run is the run of the iterations that were completed (model: gradientDescentInterrupted)
+        iters_model = stim["iterations"] if stim["interrupt_at_misfit_call"] is None else min(stim["iterations"], max(len(np.ravel(ret[3])) - 1, 0))
         req = (f"c19.gd {fhex(stim['epsilon'])} {opt(None if stim['regularization'] is None else fhex(stim['regularization']))} "
-               f"{int(stim['strictly_monotonic'])} {stim['iterations']} {vhex(m0)} {len(mt)} "
+               f"{int(stim['strictly_monotonic'])} {iters_model} {vhex(m0)} {len(mt)} "
                + " ".join(f"{vhex(a)} {fhex(r)}" for a, r in mt) + f" {len(gt)} " + " ".join(f"{vhex(a)} {vhex(r)}" for a, r in gt))
         reqs.append(req)
         metas.append((stim, ret, mt, gt, dist, nasty))
@@ -71,7 +91,18 @@ def run(tier, seed):
     for (stim, (m, x, ms, xs), mt, gt, dist, nasty), ans in zip(metas, answers):
         ms = np.array(ms, dtype=float)
         xs = np.array(xs, dtype=float).ravel()
+        if "raised" in stim:
+            st.case(stim, nontrivial=False)
+            st.disagree(stim, "a trajectory", stim["raised"], "gradient_descent raised")
+            findings.append(Finding("C19", f"gradient_descent raised {stim['raised'][:160]}", {"kind": "gd", "problem": "raised"}, {"oracle": "gd", "stimulus": stim}))
+            continue
+        if stim["interrupt_at_misfit_call"] is not None and len(xs) == 0:
+            st.case(stim, nontrivial=False)
+            st.count("interrupted in the very first evaluation")
+            continue
         st.case(stim, nontrivial=len(xs) >= 2)
+        if stim["interrupt_at_misfit_call"] is not None:
+            st.count("interrupted while the target was evaluated")
         st.count(f"history_len={'1' if len(xs) == 1 else '2-5' if len(xs) <= 5 else '6+'}")
         stopped_early = len(xs) - 1 < stim["iterations"]
         if stopped_early:
